@@ -428,6 +428,33 @@ fn main() {
                 trace.push(json!({"mutate": out, "token": m}));
                 env.strs.insert(out, m);
             }
+            "differs" => {
+                // Ok when token b is a non-tolerated alteration of token a (not equal, not just an added/removed empty footer
+                // segment, and - for public tokens - not merely a different signature encoding over the same message)
+                let a = env.str_of(&st["a"]).unwrap_or_default();
+                let b = env.str_of(&st["b"]).unwrap_or_default();
+                let sl = st["sig_len"].as_u64().unwrap_or(0) as usize;
+                let norm = |t: &str| t.strip_suffix('.').map(|x| x.to_string()).unwrap_or(t.to_string());
+                let mut tolerated = a == b || norm(&a) == norm(&b);
+                if !tolerated && sl > 0 {
+                    let pa: Vec<&str> = a.split('.').collect();
+                    let pb: Vec<&str> = b.split('.').collect();
+                    let (na, nb) = (norm(&a), norm(&b));
+                    let qa: Vec<&str> = na.split('.').collect();
+                    let qb: Vec<&str> = nb.split('.').collect();
+                    let _ = (pa, pb);
+                    if qa.len() == qb.len() && qa.len() >= 3 && qa.iter().zip(qb.iter()).enumerate().all(|(i, (x, y))| i == 2 || x == y) {
+                        if let (Some(x), Some(y)) = (b64d(qa[2]), b64d(qb[2])) {
+                            if x.len() == y.len() && x.len() >= sl && x[..x.len() - sl] == y[..y.len() - sl] {
+                                tolerated = true;
+                            }
+                        }
+                    }
+                }
+                let o = if tolerated { Outcome::Err("tolerated".into()) } else { Outcome::Ok("altered".into()) };
+                trace.push(json!({"differs": out, "result": o.text()}));
+                env.outs.insert(out, o);
+            }
             "key_hex" => {
                 let n = st["size"].as_u64().unwrap_or(32);
                 let s = st["hex"].as_str().unwrap_or("").to_string();
